@@ -907,9 +907,11 @@ pixman_image_fill_boxes (pixman_op_t           op,
         uint32_t pixel;
 
         /* A destination with an alpha map takes its alpha channel from
-         * there, which only the compositing path knows how to do.
+         * there, and one with accessors must be written through them;
+         * only the compositing path knows how to do either.
          */
         if (!dest->common.alpha_map &&
+            !dest->bits.read_func && !dest->bits.write_func &&
             color_to_pixel (color, &pixel, dest->bits.format))
         {
             pixman_region32_t fill_region;
